@@ -331,12 +331,103 @@ def corr_hop(ctx: Ctx, drv):
         ctx.corr_case("_rescale_velocity_along_nac", {"natom": natom, "mode": mode, "dE": dE}, out[:4], [int(bool(ok))] + v2[:3].tolist(), good, stratum=mode + ("/down" if dE < 0 else "/up"))
 
 
+def corr_more(ctx: Ctx, drv):
+    """_attempt_hop, the relabel scatter and _propagate_electronic vs the compiled model"""
+    import torch
+
+    from seqm.NonadiabaticDynamics import HBAR_EV_FS
+
+    rng = ctx.rng
+    n_it = 40 if ctx.thorough else 12
+    for it in range(n_it):
+        n = int(rng.integers(2, 9))
+        # --- hop probabilities / cumulative draw
+        dyn = _dyn(1, n)
+        dyn._amp_phase = _rand_amp(rng, 1, n)
+        act = int(rng.integers(0, n))
+        dyn._active_states = torch.as_tensor([act])
+        H = rng.normal(size=(1, n, n)) * float(10 ** rng.uniform(-2, 0.7))
+        H = H - H.transpose(0, 2, 1)
+        dyn._hop_integral = torch.as_tensor(H)
+        xi = float(np.float32(rng.uniform(0.0, 1.0)))  # torch.rand(nmol) is float32
+        orig_rand = torch.rand
+        torch.rand = lambda *a, **k: torch.tensor([xi], dtype=torch.float32)
+        try:
+            tgt = int(dyn._attempt_hop()[0])
+        finally:
+            torch.rand = orig_rand
+        amp = dyn._amp_phase.numpy()[0]
+        out = drv.ask("hop_probs", n, act, f2b(xi), *[f2b(v) for v in amp[:, 0]], *[f2b(v) for v in amp[:, 1]], *[f2b(v) for v in H[0].reshape(-1)])
+        ok = len(out) == 1 + n and int(out[0]) == tgt
+        ctx.corr_case("_attempt_hop", {"n": n, "active": act, "xi": xi}, out[:3], tgt, ok, stratum=f"n={n}")
+        # --- relabel by scatter (bijections and the non-bijective assignment artefact)
+        if it % 3 == 0:
+            swap = [-1] * n
+            i, j = [int(v) for v in rng.choice(n, size=2, replace=False)]
+            swap[i], swap[j] = j, i
+            if it % 6 == 0 and n >= 3:
+                k_ = [v for v in range(n) if v not in (i, j)][0]
+                swap[k_] = swap[i]  # duplicate target: not a bijection
+            dyn = _dyn(1, n)
+            dyn._amp_phase = _rand_amp(rng, 1, n)
+            before = dyn._amp_phase.numpy()[0].copy()
+            dyn._active_states = torch.as_tensor([act])
+            dyn._trivial_crossing_mask = torch.as_tensor([swap])
+            dyn._hop_integral = None
+            dyn._recompute_active_force = lambda m: None
+            molns = SimpleNamespace(coordinates=torch.zeros(1, 1, 3), velocities=torch.zeros(1, 1, 3), force=torch.zeros(1, 1, 3), mass_inverse=torch.ones(1, 1, 1), Etot=torch.zeros(1))
+            dyn._after_electronic_update(molns, torch.zeros(1, n), step=0)
+            after = dyn._amp_phase.numpy()[0].reshape(-1)
+            out = drv.ask("hop_relabel", n, act, *swap, *[f2b(v) for v in before.reshape(-1)])
+            ok = len(out) == 1 + 3 * n and int(out[0]) == int(dyn._active_states[0]) and all(b2f(o) == float(w) for o, w in zip(out[1:], after))
+            ctx.corr_case("trivial-crossing relabel (scatter)", {"n": n, "active": act, "swap_to": swap}, out[:4], [int(dyn._active_states[0])] + after[:3].tolist(), ok,
+                          stratum="bijection" if sorted(s_ if s_ >= 0 else q for q, s_ in enumerate(swap)) == list(range(n)) else "non-bijective")
+        # --- RK4 propagation
+        if it % 2 == 0:
+            nsub = int(rng.choice([1, 4, 8]))
+            dt = float(rng.choice([0.05, 0.2, 0.5]))
+            dyn = _dyn(1, n, dt=dt)
+            dyn._amp_phase = _rand_amp(rng, 1, n)
+            a0 = dyn._amp_phase.numpy()[0].copy()
+            E0 = np.sort(rng.uniform(0, 3, size=(1, n)), axis=1)
+            E1 = E0 + rng.normal(size=(1, n)) * 0.02
+            D0 = _rand_nac(rng, 1, n, 0.1, spike=(20.0 if it % 8 == 0 else None))
+            D1 = _rand_nac(rng, 1, n, 0.1)
+            dyn._propagate_electronic({"energies": torch.as_tensor(E0), "nac_dot": torch.as_tensor(D0)}, {"energies": torch.as_tensor(E1), "nac_dot": torch.as_tensor(D1)}, substeps=nsub)
+            a1 = dyn._amp_phase.numpy()[0]
+            hi = dyn._hop_integral.numpy()[0].reshape(-1)
+            out = drv.ask("rk4_propagate", n, nsub, f2b(dt), f2b(HBAR_EV_FS), *[f2b(v) for v in a0[:, 0]], *[f2b(v) for v in a0[:, 1]], *[f2b(v) for v in a0[:, 2]],
+                          *[f2b(v) for v in E0[0]], *[f2b(v) for v in E1[0]], *[f2b(v) for v in D0[0].reshape(-1)], *[f2b(v) for v in D1[0].reshape(-1)])
+            want = np.concatenate([a1[:, 0], a1[:, 1], a1[:, 2], hi])
+            ok = len(out) == 3 * n + n * n and all(abs(b2f(o) - w) <= 1e-12 * max(1.0, abs(w)) for o, w in zip(out, want))
+            ctx.corr_case("_propagate_electronic (RK4)", {"n": n, "nsub": nsub, "dt": dt}, [b2f(o) for o in out[:3]] if len(out) > 3 else out, want[:3].tolist(), ok, stratum=f"nsub={nsub}")
+            # adaptive (batch-global) sub-step count
+            out = drv.ask("rk4_nsub", 1, n, f2b(dt), *[f2b(v) for v in D0[0].reshape(-1)], *[f2b(v) for v in D1[0].reshape(-1)])
+            dyn2 = _dyn(1, n, dt=dt)
+            dyn2._amp_phase = _rand_amp(rng, 1, n)
+            calls = {"n": 0}
+            orig_bmm = torch.bmm
+
+            def cnt(*a, **k):
+                calls["n"] += 1
+                return orig_bmm(*a, **k)
+            torch.bmm = cnt
+            try:
+                dyn2._propagate_electronic({"energies": torch.as_tensor(E0), "nac_dot": torch.as_tensor(D0)}, {"energies": torch.as_tensor(E1), "nac_dot": torch.as_tensor(D1)}, substeps=None)
+            finally:
+                torch.bmm = orig_bmm
+            real_nsub = calls["n"] // 8  # 4 rhs evaluations x 2 bmm per sub-step
+            ok = len(out) == 1 and int(out[0]) == real_nsub
+            ctx.corr_case("adaptive sub-step count", {"n": n, "dt": dt, "spike": it % 8 == 0}, out, real_nsub, ok)
+
+
 def run(ctx: Ctx):
     leanproj.check_theorems(ctx, MODULE, THEOREMS)
     drv = leanproj.Driver()
     try:
         try:
             corr_hop(ctx, drv)
+            corr_more(ctx, drv)
         except Exception:
             import traceback
             ctx.obligation("correspondence adapters C17 ran", False, traceback.format_exc()[-1500:], kind="harness")
